@@ -67,8 +67,12 @@ func local() []cat.Program {
 		{Name: "x-class-object", Canary: "xcoWHO", Feat: []string{hazard, "class-object"},
 			Files: map[string]string{"page.vuego": `<p class="s t" :class="{on: flag, off: !flag, big: num > 3, small: num < 3, named: who}" :title="who">x</p>` +
 				`<p :class="{a: flag, b: flag, c: flag, d: flag, e: flag, f: flag}" :data-x="{k1: who, k2: num}" :style="{top: size, left: size, color: col}">y</p>` +
-				`<p class="only" :class="cls" :data-q="who">q</p>` + end},
-			Data: map[string]vals.V{"who": s("xcoWHO"), "flag": b(true), "num": n(5), "size": s("1px"), "col": s("red"), "cls": s("k1 k2")}},
+				`<p class="only" :class="cls" :data-q="who">q</p>` +
+				// map-typed values: whatever their text form is, it must be the same every time
+				`<p :class="cmap" :data-m="smap" :title="cmap">m {{ cmap }} {{ smap | json }}</p>` + end},
+			Data: map[string]vals.V{"who": s("xcoWHO"), "flag": b(true), "num": n(5), "size": s("1px"), "col": s("red"), "cls": s("k1 k2"),
+				"cmap": m(map[string]vals.V{"a": b(true), "b": b(false), "c": b(true), "d": n(1), "e": s("x")}),
+				"smap": {K: "mapss", M: map[string]vals.V{"top": s("1px"), "left": s("2px"), "color": s("red"), "margin": s("0")}}}},
 
 		{Name: "x-nested-data", Canary: "xndWHO", Feat: []string{"nested-data", "include", "v-for"},
 			Files: map[string]string{
@@ -115,14 +119,24 @@ func local() []cat.Program {
 
 		{Name: "x-vhtml", Canary: "xvhWHO", Feat: []string{"v-html", "v-text"},
 			Files: map[string]string{"page.vuego": `<div v-html="markup" class="h" :title="who"><b>old</b></div><p v-text="who | upper"><i>old</i></p>` +
-				`<ul><li v-for="r in rows" v-html="r"></li></ul><span v-text="num">0</span>` + end},
-			Data: map[string]vals.V{"who": s("xvhWHO"), "num": n(3), "markup": s("<b>bold xvh</b><i>it</i>"), "rows": strs("<u>u1</u>", "plain", "<s>s3</s>")}},
+				`<ul><li v-for="r in rows" v-html="r"></li></ul><span v-text="num">0</span>` +
+				// v-html / v-text together with v-show and a static style: the element is deep-cloned and its style rewritten
+				`<div v-html="markup" style="color:red;top:0" v-show="flag" :title="who"></div><p v-text="who" style="a:1;b:2" v-show="flag" class="t"></p>` +
+				`<ol><li v-for="c in cells" v-html="c.h" style="m:1;n:2" v-show="c.on" :data-h="c.h"></li></ol>` +
+				// the same with 3, 5 and 6 attributes (spare capacity in the parsed attribute slice: appends stay in place)
+				`<div v-html="markup" style="color:red;top:0" v-show="flag"></div><p v-text="who" style="a:1;b:2" v-show="flag"></p>` +
+				`<div v-html="markup" style="left:0" v-show="flag" class="c5" id="i5"></div><p id="i6" v-text="who" class="c6" lang="en" style="a:6" v-show="flag"></p>` +
+				`<ol><li v-for="c in cells" v-text="c.h" style="m:3" v-show="c.on"></li></ol>` + end},
+			Data: map[string]vals.V{"who": s("xvhWHO"), "num": n(3), "flag": b(true), "markup": s("<b>bold xvh</b><i>it</i>"), "rows": strs("<u>u1</u>", "plain", "<s>s3</s>"),
+				"cells": anys(m(map[string]vals.V{"h": s("<b>c1</b>"), "on": b(true)}), m(map[string]vals.V{"h": s("c2"), "on": b(false)}), m(map[string]vals.V{"h": s("<i>c3</i>"), "on": b(true)}))}},
 
 		// reads names that only other programs bind in a scope; own data binds none of them
 		{Name: "x-leak-probe", Canary: "xlpWHO", Feat: []string{"leak-probe", "include", "slot", "v-for"},
 			Files: map[string]string{
 				"page.vuego": `<ul><li v-for="x in xs" :data-r="r" :data-title="title">{{ r }}{{ i }}{{ h }}{{ title }}{{ count }}{{ v }}{{ label }}{{ n }}{{ it }}{{ t }}{{ k }}{{ item }}{{ role }}{{ kind }}{{ r.name }}{{ role.name }}[{{ x }}]</li></ul>` +
-					`<b v-if="r">leak-r</b><b v-if="title">leak-title</b><b v-if="item">leak-item</b>` +
+					`<b v-if="r">leak-r</b><b v-if="count">leak-count</b><b v-if="item">leak-item</b>` +
+					// top-level data keys of other programs (visible only if an engine keeps a caller's data)
+					`<p :data-num="num" :data-user="user.name">{{ num }}{{ flag }}{{ size }}{{ col }}{{ user.name }}{{ rows }}{{ markup }}{{ items }}{{ cls }}{{ sty }}{{ url }}{{ extra }}{{ rec.Name }}{{ grid }}{{ matrix }}</p><b v-if="num">leak-num</b>` +
 					`<template include="components/probe.vuego"><template v-slot:head="sp"><h6>{{ sp.label }}{{ h.label }}{{ r }}{{ title }}</h6></template><p>{{ r }}{{ count }}{{ role.name }}(slot {{ who }})</p></template>` +
 					`<template include="components/probe.vuego"></template>` + end,
 				"components/probe.vuego": `<div>{{ r }}{{ title }}{{ count }}{{ kind }}{{ label }}{{ user.name }}{{ role.name }}{{ v }}{{ data.b.c }}<slot name="head" :label="who">dh</slot><slot>{{ h.label }}{{ item }}ds</slot></div>`,
@@ -225,10 +239,11 @@ func canaries(p cat.Program) []string {
 // ---- entry points
 
 const (
-	eNodes = "nodes" // (*Vue).RenderNodes on nodes parsed by the caller
+	eNodes  = "nodes"  // (*Vue).RenderNodes on nodes parsed by the caller
+	eAssign = "assign" // root.Load(page), one Assign per data key (sorted), Render: no Fill
 )
 
-var allEntries = []string{"load", "file", "string", "byte", "reader", "vue", "frag", eNodes}
+var allEntries = []string{"load", "file", "string", "byte", "reader", "vue", "frag", eNodes, eAssign}
 
 func usesLayout(p cat.Program) bool {
 	for f, src := range p.Files {
@@ -252,6 +267,8 @@ func applicable(p cat.Program, entry string) bool {
 		return len(p.Opts) == 0 && !usesLayout(p)
 	case eNodes:
 		return !p.FileOnly && len(p.Opts) == 0
+	case eAssign:
+		return true
 	}
 	return p.Applicable(entry)
 }
